@@ -42,7 +42,7 @@ pub fn run(c: &Case, rep: &mut Report) {
     let t = tree::tree_for(seed, index);
     let want = tree::flatten(&t);
     let np = t.params.len();
-    let order_name = |k: u32| ["", "append", "reverse-insert-at-0", "random-positional-insert", "dangling-attached-later", "nested-closures", "preallocated-in-random-order", "random-positional-insert-with-closures"][k as usize];
+    let order_name = |k: u32| ["", "append", "reverse-insert-at-0", "random-positional-insert", "dangling-attached-later", "nested-closures", "preallocated-in-random-order", "random-positional-insert-with-closures", "closures-appending-to-the-enclosing-sequence"][k as usize];
     for (k, v) in &end.fields {
         if let Some(o) = k.strip_prefix("panic.") {
             let p = std::str::from_utf8(v).unwrap_or("?");
@@ -50,7 +50,7 @@ pub fn run(c: &Case, rep: &mut Report) {
         }
     }
     let mut compared = 0;
-    for order in 1..=7u32 {
+    for order in 1..=8u32 {
         let out = match end.get(&format!("out.{}", order)) {
             Some(o) => o,
             None => continue,
@@ -219,7 +219,7 @@ pub fn run(c: &Case, rep: &mut Report) {
             rep.observe("instructions-built", n);
         }
     }
-    if compared == 7 && want.len() >= 4 {
+    if compared == 8 && want.len() >= 4 {
         rep.nontrivial(c, "");
     }
     rep.sample(json!({"tree": text, "operators": want.len(), "params": format!("{:?}", t.params), "results": format!("{:?}", t.results), "first": want.iter().take(6).map(|w| format!("{:?}", w)).collect::<Vec<_>>()}));
